@@ -211,6 +211,10 @@ pub fn c08_sources() -> Vec<(&'static str, String, Option<String>)> {
         ("unit-enum-with-tag", s("#[typeshare]\npub struct Good {\n    pub a: u32,\n}\n\n#[typeshare]\n#[serde(tag = \"t\")]\npub enum Outer {\n    A,\n    B,\n}\n"), None),
         ("flatten", s("#[typeshare]\npub struct Good {\n    pub a: u32,\n}\n\n#[typeshare]\npub struct Outer {\n    #[serde(flatten)]\n    pub g: Good,\n}\n"), None),
         ("const-string", s("#[typeshare]\npub struct Good {\n    pub a: u32,\n}\n\n#[typeshare]\npub const NAME: &str = \"x\";\n"), None),
+        // a tuple item keeps its arity on the wire when one of its unnamed fields is skipped (serde writes a one-element array)
+        ("tuple-struct-2-one-field-serde-skipped", s("#[typeshare]\npub struct Good {\n    pub a: u32,\n}\n\n#[typeshare]\npub struct Outer(pub String, #[serde(skip)] pub u32);\n"), None),
+        ("tuple-struct-3-two-fields-typeshare-skipped", s("#[typeshare]\npub struct Good {\n    pub a: u32,\n}\n\n#[typeshare]\npub struct Outer(#[typeshare(skip)] pub u32, pub String, #[typeshare(skip)] pub bool);\n"), None),
+        ("tuple-variant-2-one-field-skipped", s("#[typeshare]\npub struct Good {\n    pub a: u32,\n}\n\n#[typeshare]\n#[serde(tag = \"t\", content = \"c\")]\npub enum Outer {\n    A(String, #[serde(skip)] u32),\n    B,\n}\n"), None),
         ("serialized-as-i64", s("#[typeshare]\npub struct Good {\n    pub a: u32,\n}\n\n#[typeshare]\npub struct Outer {\n    #[typeshare(serialized_as = \"i64\")]\n    pub t: u32,\n}\n"), None),
     ]
 }
@@ -489,6 +493,15 @@ fn proc_cases(thorough: bool) -> Vec<ProcCase> {
                     raw_inputs: vec![],
                 });
             };
+            // runs that find an earlier output in place: one that has more at its end, one that has less, the same one
+            {
+                let two = b"#[typeshare]\npub struct Alpha { pub a: u32 }\n#[typeshare]\npub struct Beta { pub b: u32 }\n".to_vec();
+                let three = b"#[typeshare]\npub struct Alpha { pub a: u32 }\n#[typeshare]\npub struct Beta { pub b: u32 }\n#[typeshare]\npub struct Zulu { pub z: u32 }\n".to_vec();
+                fault("rerun-after-the-last-type-was-removed", vec![("ws/c/src/lib.rs", two.clone()), ("before/c/src/lib.rs", three.clone())], vec!["first-run:before"], None, vec![], "ws");
+                fault("rerun-after-a-type-was-added-at-the-end", vec![("ws/c/src/lib.rs", three.clone()), ("before/c/src/lib.rs", two.clone())], vec!["first-run:before"], None, vec![], "ws");
+                fault("rerun-unchanged", vec![("ws/c/src/lib.rs", two.clone()), ("before/c/src/lib.rs", two.clone())], vec!["first-run:before"], None, vec![], "ws");
+                fault("rerun-onto-the-same-output-with-bytes-appended", vec![("ws/c/src/lib.rs", two.clone()), ("before/c/src/lib.rs", two.clone())], vec!["first-run:before", "append-to-output:\n// appended by hand\n"], None, vec![], "ws");
+            }
             fault("invalid-utf8", vec![("ws/c/src/good.rs", good.clone()), ("ws/c/src/bad.rs", b"#[typeshare]\npub struct B { pub a: u32 } // \xff\xfe\n".to_vec())], vec![], Some("ws/c/src/bad.rs"), vec![], "ws");
             fault("not-rust", vec![("ws/c/src/good.rs", good.clone()), ("ws/c/src/bad.rs", b"#[typeshare] this is not ( rust {{{\n".to_vec())], vec![], Some("ws/c/src/bad.rs"), vec![], "ws");
             fault("unclosed-attribute", vec![("ws/c/src/bad.rs", b"#[typeshare\npub struct B { pub a: u32 }\n".to_vec())], vec![], Some("ws/c/src/bad.rs"), vec![], "ws");
@@ -624,6 +637,22 @@ fn run_proc_case(c: &ProcCase, timeout: Duration) -> ProcObs {
         args.extend(c.raw_inputs.iter().cloned());
     }
     let cwd = if c.cwd.is_empty() { sc.root.clone() } else { sc.path(&c.cwd) };
+    // "first-run:<rel>": the same command on another input tree first, so that the measured run finds that output in place
+    for st in &c.setup {
+        if let Some(rel) = st.strip_prefix("first-run:") {
+            let mut a1 = args.clone();
+            a1.pop();
+            a1.push(sc.path(rel).to_string_lossy().into_owned());
+            let _ = run_cli(&a1, &cwd, &[], Duration::from_secs(20));
+        } else if let Some(extra) = st.strip_prefix("append-to-output:") {
+            // bytes appended to every file of the output location (an output that is longer than, and starts with, the new one)
+            for (name, bytes) in snapshot(&sc.path("out")) {
+                let mut b = bytes;
+                b.extend_from_slice(extra.as_bytes());
+                let _ = std::fs::write(sc.path(&format!("out/{name}")), b);
+            }
+        }
+    }
     let r = run_cli(&args, &cwd, &[], timeout);
     let output_present = if c.multi { !snapshot(&sc.path("out")).is_empty() } else { out_path.is_file() };
     let names_offending = c.offending.as_ref().map(|o| r.stderr.contains(&*sc.path(o).to_string_lossy())).unwrap_or(true);
